@@ -418,8 +418,9 @@ def check_every_variant(chk, prog):
             some = [tb for v, tb in f.term(sw)[2] if v == "1"]
             if not some or not any(b in ({some[0]} | f.reach_avoiding([some[0]], {c.bb})) for b in adds):
                 continue
-            r1 = {some[0]} | f.reach_avoiding([some[0]], adds)
-            r2 = {some[0]} | f.reach_avoiding([some[0]], stores)
+            from ..util import escapes
+            r1 = {c.bb} if escapes(f, some[0], adds, c.bb) else set()
+            r2 = {c.bb} if escapes(f, some[0], stores, c.bb) else set()
             if c.bb in r1:
                 why = "an iteration can move on to the next rule without add_rules_from_cached"
             elif c.bb in r2:
